@@ -1,7 +1,8 @@
 /-
-Model of `window/session_window.go` (event time).  A key has one *head* session (map key = the
-composite key) and any number of *parked* sessions (an on-time event at or beyond the head's end
-parks the head under a fresh map key and opens a new head); each is expired by the watermark.
+Model of `window/session_window.go` (event time).  A key may have several open sessions; an
+on-time event joins every session of its key it touches (less than the timeout before the
+session's first event and before its end), merging them when it bridges a gap, and opens a new
+session when it touches none; each session is expired by the watermark.
 One model op per critical section.  Core Lean only.
 -/
 import SsqlVerif.Model.Watermark
@@ -48,22 +49,27 @@ structure SWin where
   wm       : Wm.Wm
   deriving Repr
 
-def isHead (k : Key) (s : Sess) : Bool := s.key == k && s.park == 0
+def newSess (k : Key) (r : Row) (timeout : Int) (park : Nat) : Sess :=
+  { key := k, park := park, rows := [r], lastActive := r.ts, start := r.ts, stop := r.ts + timeout }
 
-def head? (w : SWin) (k : Key) : Option Sess := w.sessions.find? (isHead k)
+/-- the event at `ts` of key `k` touches session `s`: less than the timeout before its first event
+and before its end (last event + timeout) -/
+def touches (timeout : Int) (k : Key) (ts : Int) (s : Sess) : Bool :=
+  s.key == k && decide (s.start - timeout < ts) && decide (ts < s.stop)
 
-def newSess (k : Key) (r : Row) (timeout : Int) : Sess :=
-  { key := k, park := 0, rows := [r], lastActive := r.ts, start := r.ts, stop := r.ts + timeout }
+def maxLast : List Sess → Int → Int
+  | [], m => m
+  | s :: ss, m => maxLast ss (if m < s.lastActive then s.lastActive else m)
 
-/-- extension of the head session by an on-time row inside it -/
-def extend (s : Sess) (r : Row) (timeout : Int) : Sess :=
-  { s with rows := s.rows ++ [r],
-           lastActive := if s.lastActive < r.ts then r.ts else s.lastActive,
-           stop := if s.lastActive < r.ts ∧ s.stop < r.ts + timeout then r.ts + timeout else s.stop,
-           start := if r.ts < s.start then r.ts else s.start }
+def minStart : List Sess → Int → Int
+  | [], m => m
+  | s :: ss, m => minStart ss (if s.start < m then s.start else m)
 
-def replaceHead (l : List Sess) (k : Key) (f : Sess → Sess) : List Sess :=
-  l.map (fun s => if isHead k s then f s else s)
+/-- the session obtained by merging the touched sessions `t :: os` (in start order) and the row -/
+def merged (timeout : Int) (t : Sess) (os : List Sess) (r : Row) : Sess :=
+  { key := t.key, park := t.park, rows := (t :: os).flatMap (·.rows) ++ [r],
+    lastActive := maxLast (t :: os) r.ts, start := minStart (t :: os) r.ts,
+    stop := maxLast (t :: os) r.ts + timeout }
 
 def slotHas (t : Trig) (ts : Int) : Bool := decide (t.sess.start ≤ ts) && decide (ts < t.sess.stop)
 
@@ -83,13 +89,31 @@ def absorb (w : SWin) (t : Trig) (r : Row) : List Trig :=
 def wmAfter (w : SWin) (r : Row) (now : Int) : Wm.Wm := updateEventTime w.wm r.ts now
 def lateNow (w : SWin) (r : Row) (now : Int) : Bool := isLate (wmAfter w r now) r.ts
 
+/-- canonical order: key, then start (one expiry pass of the implementation iterates a Go map;
+the touched sessions of one key are merged in start order) -/
+def sessLt (a b : Sess) : Bool :=
+  (String.ofList a.key < String.ofList b.key) || (a.key == b.key && a.start < b.start)
+
+def insertSorted (s : Sess) : List Sess → List Sess
+  | [] => [s]
+  | x :: xs => if sessLt s x then s :: x :: xs else x :: insertSorted s xs
+
+def sortSess (l : List Sess) : List Sess := l.foldr insertSorted []
+
+/-- the open sessions of key `k` the row touches, in start order -/
+def touched (w : SWin) (k : Key) (r : Row) : List Sess :=
+  sortSess (w.sessions.filter (touches w.timeout k r.ts))
+
+/-- map key of a new session: the composite key itself when free, else a fresh numbered one -/
+def freshPark (w : SWin) (k : Key) : Nat :=
+  if w.sessions.any (fun s => s.key == k && s.park == 0) then w.parkSeq + 1 else 0
+
 /-- what an Add does with a row that has a usable timestamp -/
 inductive Fate where
   | lateAbsorb (t : Trig)     -- late, inside an open triggered session of its key: re-delivery
   | lateDrop                  -- late otherwise
-  | create                    -- on time, the key has no open head session
-  | park (h : Sess)           -- on time, at or beyond the head's end: park the head, open a new head
-  | extendHead (h : Sess)     -- on time, below the head's end: joins the head
+  | create                    -- on time, touches no open session of its key: a new session
+  | join (t : Sess) (os : List Sess)   -- on time, touches `t :: os`: joins (and merges) them
   deriving Repr, DecidableEq
 
 def lateFate (w : SWin) (k : Key) (r : Row) (cur : Option Int) : Fate :=
@@ -97,12 +121,10 @@ def lateFate (w : SWin) (k : Key) (r : Row) (cur : Option Int) : Fate :=
   | some t => .lateAbsorb t
   | none => .lateDrop
 
-def headFate (r : Row) (h : Sess) : Fate := if h.stop ≤ r.ts then .park h else .extendHead h
-
 def onTimeFate (w : SWin) (k : Key) (r : Row) : Fate :=
-  match head? w k with
-  | none => .create
-  | some h => headFate r h
+  match touched w k r with
+  | [] => .create
+  | t :: os => .join t os
 
 def fate (w : SWin) (k : Key) (r : Row) (now : Int) : Fate :=
   if lateNow w r now then (if 0 < w.lateness then lateFate w k r (wmAfter w r now).cur else .lateDrop)
@@ -110,9 +132,8 @@ def fate (w : SWin) (k : Key) (r : Row) (now : Int) : Fate :=
 
 def addSessions (w : SWin) (k : Key) (r : Row) (now : Int) : List Sess :=
   match fate w k r now with
-  | .create => w.sessions ++ [newSess k r w.timeout]
-  | .park _ => replaceHead w.sessions k (fun s => { s with park := w.parkSeq + 1 }) ++ [newSess k r w.timeout]
-  | .extendHead _ => replaceHead w.sessions k (fun s => extend s r w.timeout)
+  | .create => w.sessions ++ [newSess k r w.timeout (freshPark w k)]
+  | .join t os => w.sessions.filter (fun s => !touches w.timeout k r.ts s) ++ [merged w.timeout t os r]
   | _ => w.sessions
 
 def addTrig (w : SWin) (k : Key) (r : Row) (now : Int) : List Trig :=
@@ -122,7 +143,7 @@ def addTrig (w : SWin) (k : Key) (r : Row) (now : Int) : List Trig :=
 
 def addPark (w : SWin) (k : Key) (r : Row) (now : Int) : Nat :=
   match fate w k r now with
-  | .park _ => w.parkSeq + 1
+  | .create => if freshPark w k = 0 then w.parkSeq else w.parkSeq + 1
   | _ => w.parkSeq
 
 def addEmit (w : SWin) (k : Key) (r : Row) (now : Int) : List Emission :=
@@ -136,16 +157,6 @@ def stepAdd (w : SWin) (k : Key) (r : Row) (now : Int) : SWin × List Emission :
             parkSeq := addPark w k r now }, addEmit w k r now)
 
 def expiredBy (w : SWin) (x : Int) (s : Sess) : Bool := decide (s.stop ≤ x) || decide (w.timeout < x - s.lastActive)
-
-/-- canonical order of one expiry pass (the implementation iterates a Go map): key, then start -/
-def sessLt (a b : Sess) : Bool :=
-  (String.ofList a.key < String.ofList b.key) || (a.key == b.key && a.start < b.start)
-
-def insertSorted (s : Sess) : List Sess → List Sess
-  | [] => [s]
-  | x :: xs => if sessLt s x then s :: x :: xs else x :: insertSorted s xs
-
-def sortSess (l : List Sess) : List Sess := l.foldr insertSorted []
 
 def putTrig (l : List Trig) (t : Trig) : List Trig :=
   (l.filter (fun u => !(u.sess.key == t.sess.key && u.sess.park == t.sess.park))) ++ [t]
